@@ -137,6 +137,26 @@ void gen_upstream(Tape& t, int cls, int N, int nc, int S, MatrixType& gC, Eigen:
   }
 }
 
+// the object under test propagated gradients (and answered the energy queries) for a LARGER problem before it was updated to this one
+template <int S>
+void prior_larger_history(Tape& t, Ctx& ctx, typename SplineOf<D, S>::type& sp, SplineCase<D>& c) {
+  using Spline = typename SplineOf<D, S>::type;
+  using MatrixType = typename Spline::MatrixType;
+  constexpr int nc = 2 * S;
+  const int N = c.N;
+  SplineCase<D> big; big.s = S; big.N = N + 1 + t.range(0, 4);
+  gen_durations(t, big.N, wellscaled_ratio(S), big.T, &big.sigma, &big.ratio, &big.dur_shape, &big.shape);
+  big.t0 = 0; gen_data(t, big);
+  sp = Spline(big.T, big.P, big.t0, big.bc);
+  MatrixType jc; Eigen::VectorXd jt; std::string jn;
+  gen_upstream(t, 0, big.N, nc, S, jc, jt, &jn);
+  (void)sp.propagateGrad(jc, jt);
+  if (t.flag()) { (void)sp.getEnergyGrad(); (void)sp.propagateGrad(sp.getEnergyPartialGradByCoeffs(), sp.getEnergyPartialGradByTimes()); }
+  if (t.flag()) sp.update(c.T, c.P, c.t0, c.bc); else sp.update(c.time_points(), c.P, c.bc);
+  if (!(sp.getTimeSegments() == c.T)) c.T = sp.getTimeSegments();   // the time-point route rounds the durations: the oracle uses what the spline uses
+  ctx.label("object:propagated-at-larger-size-before");
+}
+
 // ===================================================================================== C05
 template <int S>
 void c05_case(Tape& t, Ctx& ctx) {
@@ -147,19 +167,7 @@ void c05_case(Tape& t, Ctx& ctx) {
   SplineCase<D> c = gen_spline_case<D>(t, S, wellscaled_ratio(S), 10, 16);
   const int N = c.N;
   Spline sp(c.T, c.P, c.t0, c.bc);
-  if (t.chance(1, 4)) {
-    // the object under test propagated gradients for a LARGER problem before it was updated to this one
-    SplineCase<D> big; big.s = S; big.N = N + 1 + t.range(0, 4);
-    gen_durations(t, big.N, wellscaled_ratio(S), big.T, &big.sigma, &big.ratio, &big.dur_shape, &big.shape);
-    big.t0 = 0; gen_data(t, big);
-    sp = Spline(big.T, big.P, big.t0, big.bc);
-    MatrixType jc; Eigen::VectorXd jt; std::string jn;
-    gen_upstream(t, 0, big.N, nc, S, jc, jt, &jn);
-    (void)sp.propagateGrad(jc, jt);
-    if (t.flag()) sp.update(c.T, c.P, c.t0, c.bc); else sp.update(c.time_points(), c.P, c.bc);
-    if (!(sp.getTimeSegments() == c.T)) c.T = sp.getTimeSegments();   // the time-point route rounds the durations: the oracle uses what the spline uses
-    ctx.label("object:propagated-at-larger-size-before");
-  }
+  if (t.chance(1, 4)) prior_larger_history<S>(t, ctx, sp, c);
   ctx.label(std::string("order:") + SplineOf<D, S>::name());
   ctx.label(N == 1 ? "N=1" : (N == 2 ? "N=2" : "N>=3"));
   if (ctx.want_desc) ctx.desc << c.describe() << ", \"upstream\": [";
@@ -266,6 +274,7 @@ void c06_case(Tape& t, Ctx& ctx) {
     ctx.label(nz ? "boundary:non-zero" : "boundary:zero");
   }
   Spline sp(c.T, c.P, c.t0, c.bc);
+  if (t.chance(1, 4)) prior_larger_history<S>(t, ctx, sp, c);
   ctx.label(std::string("order:") + SplineOf<D, S>::name());
   ctx.label(N == 1 ? "N=1" : (N == 2 ? "N=2" : "N>=3"));
   if (ctx.want_desc) ctx.desc << c.describe() << ", \"finite_differences\": " << (with_fd ? "true" : "false");
